@@ -86,6 +86,10 @@ theorem execute_cases {s s' : State} {blk : Block} {snd : Addr} {msg : Msg} {out
     obtain ⟨_, _, s1, hd, b1, h1, b2, h2, rfl, _⟩ := h
     obtain ⟨_, e2, e3⟩ := C01.deduct_frame hd
     simp [e2, e3]
+  case updateMarketing p d m =>
+    obtain ⟨mk, rfl, _⟩ := execUpdateMarketing_frame h; simp
+  case uploadLogo l =>
+    obtain ⟨mk, rfl, _⟩ := execUploadLogo_frame h; simp
 
 /-! ## Only the current minter mints -/
 
@@ -143,7 +147,7 @@ def Inv13 (cap0 : Option Nat) (s : State) : Prop :=
 `instantiate_no_minter` (the supply can then never rise at all). -/
 theorem instantiate_inv13 {m : InstMsg} {s : State} (h : instantiate m = .ok s) : Inv13 (instCap m) s := by
   simp [instantiate] at h
-  obtain ⟨_, hnd, b, t, hc, hcap, w, hw, rfl⟩ := h
+  obtain ⟨_, hnd, b, t, hc, hcap, w, hw, mk, lg, _, rfl⟩ := h
   unfold Inv13 instCap
   rcases hm : m.mint with _ | ⟨a, cap⟩
   · simp [hm] at hw ⊢
@@ -158,7 +162,7 @@ theorem instantiate_inv13 {m : InstMsg} {s : State} (h : instantiate m = .ok s) 
 theorem instantiate_mint {m : InstMsg} {s : State} (h : instantiate m = .ok s) :
     s.mint = m.mint.map (fun p => ⟨p.1.text, p.2⟩) := by
   simp [instantiate] at h
-  obtain ⟨_, hnd, b, t, hc, hcap, w, hw, rfl⟩ := h
+  obtain ⟨_, hnd, b, t, hc, hcap, w, hw, mk, lg, _, rfl⟩ := h
   rcases hm : m.mint with _ | ⟨a, cap⟩
   · simp [hm] at hw ⊢; exact hw.symm
   · simp [hm] at hw ⊢; exact hw.2.symm
